@@ -147,3 +147,52 @@ set_param_values = Contract(
     canaries=["result[0] == 'doc'", "result[1] == val"],
 )
 CONTRACTS.append(set_param_values)
+
+# ------------------------------------------------------------------------------------------- _parse_phase_rest (C01 / C03: the ReST parser half)
+def _line(*parts):
+    return ("strcat", list(parts))
+
+
+def _ppr_case(name, lines, returns_none=True, ret_tokens=(":return", ":rtype")):
+    return Case(name, {"intermediate_repr": ("dict", {"name": None, "doc": ("lit", ""), "params": ("dict", {}), "returns": None}),
+                       "scanned": ("list", [("tuple", [tok, ln]) for tok, ln in lines]), "default_search_announce": None, "infer_type": False,
+                       "word_wrap": False, "emit_default_prop": True, "emit_default_doc": True, "return_tokens": ("lit", tuple(ret_tokens))},
+                assume=[])
+
+
+_NO_DEFAULT_TEXT = "all(nowhere_cf_in(t, %s) for t in ('defaults to ', 'defaults to\\n', 'Default value is ', 'Default:'))"
+_PPR_CASES = [
+    _ppr_case("summary+type", [(False, _line("str")), (True, _line(":type x: ```", "str", "```"))]),
+    _ppr_case("type-only", [(True, _line(":type x: ", "str"))]),
+    _ppr_case("summary-only", [(False, _line("str"))]),
+    _ppr_case("param-only", [(True, _line(":param x: ", "str"))]),
+]
+_PPR_CASES[-1].tier = "thorough"  # ~500 paths (two passes through interpolate_defaults x _set_name_and_type): two minutes
+
+parse_phase_rest = Contract(
+    "doctrans.docstring_parsers:_parse_phase_rest",
+    properties=["C01", "C03"],
+    note="scanned token lists of three shapes whose lines have a literal skeleton (':param x: <prose>', ':type x: <type>') and symbolic prose / type text; "
+         "no word wrap, default text kept; interpolate_defaults / _set_name_and_type / _set_param_values / update_d are inlined, extract_default and needs_quoting "
+         "by contract.  (The scanner that produces the token list iterates over characters with a list-valued stack: outside the verified subset, bounded rt.)",
+    cases=_PPR_CASES,
+    use_contract_for=["doctrans.defaults_utils:extract_default", "doctrans.defaults_utils:needs_quoting"],
+    ghosts={"val = line[nxt_colon + 1:].strip()": [("g_val", "val")]},
+    ensures=[
+        Clause("PPR-names-1", "list(intermediate_repr['params'].keys()) == ['x']", when=["summary+type", "type-only", "param-only"],
+               note="C01: one parameter per :param / :type line, named as written"),
+        Clause("PPR-no-params", "list(intermediate_repr['params'].keys()) == []", when=["summary-only"]),
+        Clause("PPR-summary", "intermediate_repr['doc'] == scanned[0][1].strip()", when=["summary+type", "summary-only"], note="the text before the first token is the summary"),
+        Clause("PPR-typ-backticks", "('```' in intermediate_repr['params']['x']['typ']) == False", when=["summary+type"],
+               note="the back-tick wrapper of a type is removed"),
+        Clause("PPR-typ-plain", "('```' in g_val) or intermediate_repr['params']['x']['typ'][:9] == 'Optional[' or g_val[:2] == '**' "
+                                "or intermediate_repr['params']['x']['typ'] == g_val", when=["type-only"],
+               note="a type written without back-ticks is the stripped text after ':type x:' (unless it ends in ', optional' -> Optional[...], or names **kwargs)"),
+        Clause("PPR-val", "g_val == scanned[0][1][8:].strip()", when=["type-only"], note="the value of a line is the stripped text after the second colon"),
+        Clause("PPR-prose", "('doc' in intermediate_repr['params']['x']) == False or intermediate_repr['params']['x']['doc'] == g_val", when=["param-only"],
+               note="C01: the prose is the stripped text after ':param x:' (default text kept)"),
+        Clause("PPR-returns-none", "intermediate_repr['returns'] is None", note="no return entry is invented"),
+    ],
+    canaries=["intermediate_repr['doc'] == ''"],
+)
+CONTRACTS.append(parse_phase_rest)
